@@ -43,6 +43,13 @@ pub enum Distractor {
     NoTrailingNewline,
     /// several blank lines at the very end of hp.obo
     TrailingBlankLines,
+    /// the optional columns of phenotype.hpoa (reference, evidence, onset, frequency, sex, modifier, aspect,
+    /// biocuration) carry values that differ from row to row, e.g. frequencies `0/12`, `1/1`, `33%`, `HP:0040283`
+    HpoaFilledColumns,
+    /// phenotype.hpoa rows end after the hpo_id column
+    HpoaMinimalColumns,
+    /// hp.obo has no header block: the file starts with the first stanza (release version 0000-00-00)
+    NoHeaderBlock,
 }
 
 #[derive(Clone, Debug, Default)]
@@ -76,11 +83,13 @@ fn hp(id: u32) -> String {
 pub fn render(f: &Facts, o: &JaxOpts) -> Rendered {
     // ---------- hp.obo
     let mut obo = String::new();
-    obo.push_str("format-version: 1.2\n");
-    if !o.has(&Distractor::MissingDataVersion) {
+    if !o.has(&Distractor::NoHeaderBlock) {
+        obo.push_str("format-version: 1.2\n");
+    }
+    if !o.has(&Distractor::MissingDataVersion) && !o.has(&Distractor::NoHeaderBlock) {
         obo.push_str(&format!("data-version: hp/releases/{:04}-{:02}-{:02}\n", f.version.0, f.version.1, f.version.2));
     }
-    if o.has(&Distractor::ExtraHeaderLines) {
+    if o.has(&Distractor::ExtraHeaderLines) && !o.has(&Distractor::NoHeaderBlock) {
         obo.push_str("saved-by: Peter Robinson, Sebastian Koehler\nsubsetdef: hposlim_core \"Core clinical terminology\"\ndefault-namespace: human_phenotype\nontology: hp.obo\nproperty_value: http://purl.org/dc/elements/1.1/title \"Human Phenotype Ontology\" xsd:string\nlogical-definition-view-relation: has_part\n");
     }
     let typedef = "[Typedef]\nid: http://purl.obolibrary.org/obo/hp#has_part\nname: has_part\nxref: BFO:0000051\nis_transitive: true";
@@ -131,7 +140,9 @@ pub fn render(f: &Facts, o: &JaxOpts) -> Rendered {
     }
     // header block ends with one newline; blocks are separated by exactly one blank line
     for s in &stanzas {
-        obo.push('\n');
+        if !obo.is_empty() {
+            obo.push('\n');
+        }
         obo.push_str(s);
         obo.push('\n');
     }
@@ -152,7 +163,25 @@ pub fn render(f: &Facts, o: &JaxOpts) -> Rendered {
     }
     let dis: Vec<&crate::model::AnnFact> = f.anns.iter().filter(|a| a.kind != Kind::Gene && a.term.is_some()).collect();
     let dorder: Vec<usize> = o.disease_row_order.clone().unwrap_or_else(|| (0..dis.len()).collect());
-    let row = |db: &str, id: u32, name: &str, qual: &str, term: u32| -> String { format!("{db}:{id}\t{name}\t{qual}\t{}\t{db}:{id}\tTAS\t\t\t\t\tP\tHPO:skoehler[2014-11-27]\n", hp(term)) };
+    let filled = o.has(&Distractor::HpoaFilledColumns);
+    let minimal = o.has(&Distractor::HpoaMinimalColumns);
+    let row_no = std::cell::Cell::new(0usize);
+    let row = |db: &str, id: u32, name: &str, qual: &str, term: u32| -> String {
+        let k = row_no.get();
+        row_no.set(k + 1);
+        if minimal {
+            format!("{db}:{id}\t{name}\t{qual}\t{}\n", hp(term))
+        } else if filled {
+            let freq = ["0/12", "1/1", "HP:0040283", "33%", "0/1", "7/12", "0%", ""][k % 8];
+            let evidence = ["IEA", "PCS", "TAS"][k % 3];
+            let onset = ["HP:0003577", "", "HP:0003593"][k % 3];
+            let sex = ["MALE", "", "FEMALE", "NOT"][k % 4];
+            let aspect = ["P", "I", "C", "M", "H"][k % 5];
+            format!("{db}:{id}\t{name}\t{qual}\t{}\tPMID:{}\t{evidence}\t{onset}\t{freq}\t{sex}\tHP:0012828\t{aspect}\tHPO:probinson[2021-06-21];HPO:skoehler[2014-11-27]\n", hp(term), 1000 + k)
+        } else {
+            format!("{db}:{id}\t{name}\t{qual}\t{}\t{db}:{id}\tTAS\t\t\t\t\tP\tHPO:skoehler[2014-11-27]\n", hp(term))
+        }
+    };
     let mut rows: Vec<String> = vec![];
     for &i in &dorder {
         let a = dis[i];
